@@ -377,6 +377,7 @@ pub fn c13_cases(tier: &str) -> Vec<Value> {
         v.push(json!({"kind": "tiny", "num_counters": w, "len": if w <= 16 { len.min(6) } else { 4 }}));
         // (wide estimators: fewer sequences, the batch sizes around the window length matter)
         v.push(json!({"kind": "tiny-batch", "num_counters": w, "len": if w > 70 { 2 } else if tier == "quick" { 4 } else { 5 }}));
+        v.push(json!({"kind": "tiny-hot", "num_counters": w}));
     }
     v
 }
@@ -754,8 +755,62 @@ fn c13_tiny_batch(case: &Value, acc: &mut CompAcc) {
     }
 }
 
+/// Skewed workloads: one hot key recorded far beyond the counter limit inside one aging window,
+/// a few cold keys in between.  After EVERY recorded access - also those of a saturated key - the
+/// window position advances by one; the reset falls exactly on every num_counters-th access, the
+/// doorkeeper is emptied there, and between resets the hot key never estimates less than
+/// min(its count, 16).
+fn c13_tiny_hot(case: &Value, acc: &mut CompAcc) {
+    let nc = case["num_counters"].as_u64().unwrap() as usize;
+    let mut t = match VTinyLfu::new(nc) {
+        Ok(t) => t,
+        Err(e) => {
+            acc.fail("tiny-new", format!("TinyLFU::new({}) failed: {}", nc, e));
+            return;
+        }
+    };
+    let sn = t.snap();
+    let k4 = sketch_keys(sn.mask, sn.seeds);
+    let (hot, cold) = (k4[0], [k4[2], k4[3], u64::MAX]);
+    for period in [1usize, 5, 19] {
+        t.clear();
+        let (mut w, mut hot_count) = (0usize, 0u64);
+        for i in 0..(3 * nc + 7) {
+            acc.cases += 1;
+            acc.ops += 1;
+            let k = if period > 1 && i % period == period - 1 { cold[(i / period) % 3] } else { hot };
+            t.increment(k);
+            w += 1;
+            if k == hot {
+                hot_count += 1;
+            }
+            if w >= nc {
+                w = 0;
+                hot_count = 0;
+                if t.doorkeeper_contains(hot) || cold.iter().any(|c| t.doorkeeper_contains(*c)) {
+                    acc.fail("tiny-doorkeeper-not-emptied", format!("num_counters {}: the doorkeeper is not empty after access {} (hot-key workload, one cold key every {})", nc, i + 1, period));
+                    return;
+                }
+            }
+            let got = t.snap().w;
+            if got != w {
+                acc.fail("tiny-window", format!("num_counters {}: after {} recorded accesses (hot key every access but one in {}) the window position is {}, expected {}", nc, i + 1, period, got, w));
+                return;
+            }
+            let e = t.estimate(hot);
+            if e < hot_count.min(16) as i64 || e > 16 {
+                acc.fail("tiny-undercount", format!("num_counters {}: hot key recorded {} times since the last reset but estimated {}", nc, hot_count, e));
+                return;
+            }
+        }
+        let so = t.snap();
+        acc.state(&(nc, period, so.w, so.counters), true);
+    }
+}
+
 pub fn c13_case(case: &Value, acc: &mut CompAcc) {
     match case["kind"].as_str().unwrap() {
+        "tiny-hot" => c13_tiny_hot(case, acc),
         "tiny-batch" => c13_tiny_batch(case, acc),
         "row" => c13_row(case, acc),
         "sketch-seq" => c13_sketch_seq(case, acc),
@@ -768,7 +823,55 @@ pub fn c13_case(case: &Value, acc: &mut CompAcc) {
 // C18 (component part): key builders
 
 pub fn c18_cases(_tier: &str) -> Vec<Value> {
-    ["u8", "i8", "u16", "i16", "bool", "u32", "i32", "u64", "i64", "usize", "isize", "string"].iter().map(|t| json!({"type": t})).collect()
+    let mut v: Vec<Value> = ["u8", "i8", "u16", "i16", "bool", "u32", "i32", "u64", "i64", "usize", "isize", "string"].iter().map(|t| json!({"type": t})).collect();
+    v.push(json!({"type": "string-concurrent"}));
+    v
+}
+
+/// The default key builder shared by two threads from its very first use (what two clients of a
+/// fresh cache do): every schedule of their first `build_key` calls up to preemption bound 2
+/// (atomics of the crate are scheduling points); whatever a thread was answered for a key is what
+/// the builder answers for that key ever after, as `String` and as `&str`.
+fn c18_concurrent(acc: &mut CompAcc) {
+    use std::sync::Arc;
+    use stretto::{DefaultKeyBuilder, KeyBuilder};
+    use stretto_verif_rt as rt;
+    for (ka, kb) in [("alpha", "beta"), ("alpha", "alpha"), ("", "x")] {
+        for calls in [1usize, 2] {
+            acc.cases += 1;
+            let out = rt::explore(
+                rt::ExploreCfg { bound: 2, ..Default::default() },
+                Arc::new(move || {
+                    let b = Arc::new(DefaultKeyBuilder::<String>::default());
+                    let hs: Vec<_> = [ka, kb]
+                        .into_iter()
+                        .map(|k| {
+                            let b = b.clone();
+                            rt::thread::spawn(move || (0..calls).map(|_| b.build_key(k)).collect::<Vec<_>>())
+                        })
+                        .collect();
+                    let got: Vec<Vec<(u64, u64)>> = hs.into_iter().map(|h| h.join().unwrap()).collect();
+                    for (k, seen) in [ka, kb].into_iter().zip(got) {
+                        let now = b.build_key(k);
+                        let owned = b.build_key(&k.to_string());
+                        for s in seen {
+                            assert!(s == now && s == owned, "key {:?} was mapped to {:?} by a client thread, the builder now maps it to {:?} / {:?}", k, s, now, owned);
+                        }
+                    }
+                }),
+            );
+            acc.ops += out.executions;
+            if let Some(v) = out.violations.first() {
+                acc.fail("keybuilder-unstable-under-concurrency", format!("{} ({} of {} schedules)", v.msg, out.violations.len(), out.executions));
+                return;
+            }
+            if !out.complete {
+                acc.fail("machinery", format!("exploration incomplete: {:?}", out.cap));
+                return;
+            }
+            acc.state(&(ka, kb, calls, out.executions), out.executions > 1);
+        }
+    }
 }
 
 fn boundary_i128(bits: u32, signed: bool) -> Vec<i128> {
@@ -794,6 +897,9 @@ fn boundary_i128(bits: u32, signed: bool) -> Vec<i128> {
 
 pub fn c18_case(case: &Value, acc: &mut CompAcc) {
     use stretto::{DefaultKeyBuilder, KeyBuilder, TransparentKeyBuilder};
+    if case["type"] == "string-concurrent" {
+        return c18_concurrent(acc);
+    }
     macro_rules! full {
         ($t:ty, $iter:expr) => {{
             let kb = TransparentKeyBuilder::<$t>::default();
@@ -900,6 +1006,9 @@ pub fn c07_cases(tier: &str) -> Vec<Value> {
     for n in (full_n + 1)..=7 {
         v.push(json!({"n": n, "chunk": 0, "chunks": 1, "mode": "structured"}));
     }
+    for n in 1..=7 {
+        v.push(json!({"n": n, "chunk": 0, "chunks": 1, "mode": "second-add"}));
+    }
     // residents charged nothing (or less than nothing) among the candidates: they are sampled and
     // evicted like any other, although evicting them frees no room
     for n in 1..=(if tier == "quick" { 4 } else { 6 }) {
@@ -912,8 +1021,93 @@ pub fn c07_cases(tier: &str) -> Vec<Value> {
     v
 }
 
+/// Two admissions in a row on one policy, with residents leaving and arriving in between: whatever
+/// the first contest left behind (it may have been decided by a rejection), the candidates of the
+/// second are current residents - five of them, or all if fewer.
+fn c07_second_add(case: &Value, acc: &mut CompAcc) {
+    use crate::model::FixedState;
+    use stretto::verif::{take_evict_rounds, VPolicy};
+    let n = case["n"].as_u64().unwrap() as usize;
+    for first_hits in [0u64, 3] {
+        for resident_hits in [0u64, 2] {
+            for gone in 1..=n {
+                for second_cost in [1i64, 2] {
+                    acc.cases += 1;
+                    let pol = VPolicy::detached(1024, n as i64, FixedState::default(), false).unwrap();
+                    for k in 1..=n as u64 {
+                        let _ = pol.add(k, 1);
+                        for _ in 0..resident_hits {
+                            pol.record(vec![k]);
+                        }
+                    }
+                    for _ in 0..first_hits {
+                        pol.record(vec![100]);
+                    }
+                    // first contest: the cache is full, the newcomer wins or loses on popularity
+                    let _ = pol.add(100, 1);
+                    // residents leave, others arrive (there is room for them)
+                    let before: Vec<u64> = pol.snap().key_costs.iter().map(|x| x.0).collect();
+                    for k in before.iter().take(gone) {
+                        pol.remove(*k);
+                    }
+                    let mut fresh = 200u64;
+                    while pol.snap().used < n as i64 {
+                        let (v, added) = pol.add(fresh, 1);
+                        if !added || v.map(|v| !v.is_empty()).unwrap_or(false) {
+                            acc.fail("room-not-admitted", format!("n {}: key {} was not simply admitted although there is room", n, fresh));
+                            return;
+                        }
+                        fresh += 1;
+                    }
+                    let _ = take_evict_rounds();
+                    let residents: std::collections::HashMap<u64, i64> = pol.snap().key_costs.iter().copied().collect();
+                    let est: std::collections::HashMap<u64, i64> = residents.keys().map(|k| (*k, pol.estimate(*k))).collect();
+                    let (victims, added) = pol.add(300, second_cost);
+                    acc.ops += 1;
+                    let rounds = take_evict_rounds();
+                    let ctx = || format!("n {} first newcomer hits {} resident hits {} left {} second cost {}: residents {:?} -> rounds {:?} victims {:?} added {}", n, first_hits, resident_hits, gone, second_cost, residents, rounds, victims, added);
+                    if second_cost > n as i64 {
+                        continue;
+                    }
+                    let r0 = match rounds.first() {
+                        Some(r) => r,
+                        None => {
+                            acc.fail("no-sampling-round", format!("room is lacking but nothing was sampled: {}", ctx()));
+                            return;
+                        }
+                    };
+                    let distinct: std::collections::HashSet<u64> = r0.sample.iter().map(|s| s.0).collect();
+                    let want = residents.len().min(5);
+                    if distinct.len() != want || r0.sample.len() != want {
+                        acc.fail("sample-size", format!("first round sampled {:?}, expected {} distinct residents: {}", r0.sample, want, ctx()));
+                        return;
+                    }
+                    if let Some((k, c)) = r0.sample.iter().find(|(k, c)| residents.get(k) != Some(c)) {
+                        acc.fail("sample-not-resident", format!("sampled ({}, {}) is not a resident with that charge: {}", k, c, ctx()));
+                        return;
+                    }
+                    let min = r0.sample.iter().map(|s| est[&s.0]).min().unwrap();
+                    if r0.min_hits != min {
+                        acc.fail("victim-not-least-popular", format!("the least popular candidate estimates {} but the round used {}: {}", min, r0.min_hits, ctx()));
+                        return;
+                    }
+                    // all residents tie with the never-seen newcomer or beat it: with a tie it is admitted
+                    if (min == 0) != added && second_cost == 1 {
+                        acc.fail("reject-rule", format!("rejected exactly when strictly less popular than the least popular candidate is violated: {}", ctx()));
+                        return;
+                    }
+                    acc.state(&(n, first_hits, resident_hits, gone, second_cost, added), true);
+                }
+            }
+        }
+    }
+}
+
 pub fn c07_case(case: &Value, acc: &mut CompAcc) {
     use crate::model::FixedState;
+    if case["mode"] == "second-add" {
+        return c07_second_add(case, acc);
+    }
     use stretto::verif::{take_evict_rounds, VPolicy};
     let n = case["n"].as_u64().unwrap() as usize;
     let chunk = case["chunk"].as_u64().unwrap();
